@@ -34,7 +34,13 @@ def c07():
     return [convert.ConvRoundTrip(), convert.EqHash()]
 
 
+def c20():
+    from harness import tables
+    return [tables.Tables()]
+
+
 REGISTRY = {
+    'C20': dict(harnesses=c20, run=_runner('C20', c20)),
     'C07': dict(harnesses=c07, run=_runner('C07', c07)),
     'C06': dict(harnesses=c06, run=_runner('C06', c06)),
     'C08': dict(harnesses=c08, run=_runner('C08', c08)),
